@@ -140,20 +140,25 @@ func (ec *eventCounter) region(start *ssa.BasicBlock, startIdx int, ends map[*ss
 	}
 	memo := map[*ssa.BasicBlock]*res{}
 	onstack := map[*ssa.BasicBlock]bool{}
+	first := true
 	var walk func(b *ssa.BasicBlock, from int) res
 	walk = func(b *ssa.BasicBlock, from int) res {
+		isFirst := first
+		first = false
 		if from == 0 {
-			if b == stopAt {
+			if b == stopAt && !isFirst {
 				return res{countRange{0, 0}, true}
 			}
-			if m, ok := memo[b]; ok {
+			if m, ok := memo[b]; ok && !isFirst {
 				return *m
 			}
 			if onstack[b] {
 				return res{} // back edge: cut
 			}
-			onstack[b] = true
-			defer delete(onstack, b)
+			if !(isFirst && b == stopAt) {
+				onstack[b] = true
+				defer delete(onstack, b)
+			}
 		}
 		own := countRange{}
 		if from == 0 {
@@ -208,7 +213,7 @@ func (ec *eventCounter) region(start *ssa.BasicBlock, startIdx int, ends map[*ss
 		if out.r.Max >= unbounded {
 			out.r.Max = unbounded
 		}
-		if from == 0 {
+		if from == 0 && !isFirst {
 			memo[b] = &out
 		}
 		return out
@@ -223,13 +228,9 @@ func (ec *eventCounter) region(start *ssa.BasicBlock, startIdx int, ends map[*ss
 // perIteration computes the event range over one iteration of loop l:
 // all paths from the loop head back to the head (through a back edge).
 func (ec *eventCounter) perIteration(l *loop) countRange {
-	ends := map[*ssa.BasicBlock]bool{}
-	for _, b := range l.Backs {
-		ends[b] = true
-	}
-	// Walk from the head but only inside the loop: paths leaving the loop
-	// never reach a back-edge source, so they are dropped by region().
-	return ec.region(l.Head, 0, ends, nil)
+	// all paths from the loop head back to the loop head; paths that leave
+	// the loop never come back and are dropped by region()
+	return ec.region(l.Head, 0, nil, l.Head)
 }
 
 // ---------- guards ----------
